@@ -9,21 +9,24 @@ Faithful layer, one Lean branch per Python branch, defects included:
   `lines_to_add is None` = nothing to apply; the additions go in after `max(linenos_to_delete)`
   (`max([])` = ValueError), then the named lines are deleted in descending order with
   `del lines[lineno - 1]` (IndexError beyond the end; `lineno == 0` is Python's index `-1`).
-* `pyLines`              — `BaseNodeVisitor._lines` (:235): `contents.splitlines()`, which — unlike the
-  `readlines()` of `_apply_changes` (:508) and unlike the tokenizer that numbered the AST — also breaks lines
-  at `\x0b \x0c \x1c \x1d \x1e \x85 U+2028 U+2029` (and at a bare `\r`).
+* `pyLines`              — `BaseNodeVisitor._lines` (:235, since ba62f49): the contents split at `\r\n|\r|\n`
+  only, i.e. exactly where `readlines()` of `_apply_changes` and the tokenizer that numbered the AST break
+  lines: the identity on the file's lines.  `oldPyLines` is the table before the repair
+  (`contents.splitlines()`, which also breaks at `\x0b \x0c \x1c \x1d \x1e \x85 U+2028 U+2029`), kept with
+  `oldAddIgnoresRound` as a regression witness.
 * `getIndentation`       — `analysis_lib.get_indentation` (analysis_lib.py:43).
 * `suppressed`/`visible` — the per-line and file-level ignore tests of `show_error` (:610, :653‥669) for
   calls that carry a code and a position and obey ignore comments (what the visitor's diagnostics are),
   built from C11's text predicates (`C11.trailingMatch`, `C11.ownLineMatch`, `C11.fileLevelIdx`),
-  *including* the `lines[lineno - 2]` wrap-around for `lineno == 1`.
+  with `prev_line = "" ` for `lineno < 2` (since 0cba813; `oldPrevLineOf` is the former `lines[-1]` wrap-around).
 * `ignoreChange`         — the `add_ignores` branch of `show_error` (:687‥699): `Replacement([lineno],
   [" " * indentation + "# static analysis: ignore[code]\n", this_line])` with `this_line` taken from
   `_lines()`.
 * `addIgnoresRound`      — one `_run_and_apply_changes(autofix=True)` (:466‥512) with `add_ignores` on.
 * `iterate`, `mainLoop`  — the `--repeat-until-no-errors` loop of `main` (:406‥416) with `ITERATION_LIMIT`.
-* `isPartOfSameNode`, `lineRange` — `analysis_lib.get_line_range_for_node` (analysis_lib.py:51‥97), the
-  line numbers `ReplacingNodeVisitor.replace_node` / `remove_node` (node_visitor.py:1080‥1111) delete.
+* `isPartOfSameNode`, `lineRange` — `analysis_lib.get_line_range_for_node` (analysis_lib.py:51‥98), the
+  line numbers `ReplacingNodeVisitor.replace_node` / `remove_node` (node_visitor.py:1080‥1111) delete; since
+  d5dca9e the scan starts *after* `end_lineno` (`oldLineRange`: before the repair it started *at* it).
 
 The re-check is abstract: `St.raw` is the stream of diagnostics the visitor reports on the file *before any
 ignore comment is honoured* (code, line, column — in emission order, duplicates already removed; C11 models
@@ -123,8 +126,12 @@ def splitPieces : Line → List Line
 def pyLinesOf (l : Line) : List Line :=
   if l.getLast? == some '\r' then (splitPieces l).dropLast else splitPieces l
 
-/-- `self._lines()` for a file whose `readlines()` are `ls` (file ending in a newline). -/
-def pyLines (ls : List Line) : List Line := ls.flatMap pyLinesOf
+/-- `self._lines()` **before ba62f49** for a file whose `readlines()` are `ls` (file ending in a newline). -/
+def oldPyLines (ls : List Line) : List Line := ls.flatMap pyLinesOf
+
+/-- `self._lines()` for a file whose `readlines()` are `ls`: `re.split(r"\r\n|\r|\n", contents)` breaks the
+text exactly where `readlines()` (universal newlines) does. -/
+def pyLines (ls : List Line) : List Line := ls
 
 /-! ## 3. `get_indentation` and the ignore tests of `show_error` -/
 
@@ -144,8 +151,12 @@ structure Diag where
 /-- `lines[lineno - 1]` (default outside the file, see header). -/
 def lineAt (pl : List Line) (ln : Nat) : Line := pl.getD (ln - 1) []
 
-/-- `lines[lineno - 2]`: for `lineno = 1` Python's index `-1`, the *last* line. -/
+/-- `lines[lineno - 2].strip() if lineno >= 2 else ""` (before stripping). -/
 def prevLineOf (pl : List Line) (ln : Nat) : Line :=
+  if ln ≤ 1 then [] else pl.getD (ln - 2) []
+
+/-- **Before 0cba813**: `lines[lineno - 2]`, for `lineno = 1` Python's index `-1`, the *last* line. -/
+def oldPrevLineOf (pl : List Line) (ln : Nat) : Line :=
   if ln ≤ 1 then pl.getLast?.getD [] else pl.getD (ln - 2) []
 
 /-- `has_file_level_ignore(error_code)` -/
@@ -185,6 +196,16 @@ def St.diags (st : St) : List Diag := visible (pyLines st.lines) st.raw
 per failure, apply the first. An exception while applying leaves the file as it is. -/
 def addIgnoresRound (st : St) : St :=
   let pl := pyLines st.lines
+  match visible pl st.raw with
+  | [] => st
+  | d :: ds =>
+    match applyChanges ((d :: ds).map (ignoreChange pl)) st.lines with
+    | .ok ls => { lines := ls, raw := st.raw.map (shiftDiag d.line) }
+    | .error _ => st
+
+/-- The round **before ba62f49**: line table from `splitlines()`, file from `readlines()`. -/
+def oldAddIgnoresRound (st : St) : St :=
+  let pl := oldPyLines st.lines
   match visible pl st.raw with
   | [] => st
   | d :: ds =>
@@ -239,6 +260,13 @@ def extend (first : Line) : Nat → List Line → Nat
 /-- `get_line_range_for_node(node, lines)` for a node starting on line `first` whose sub-nodes end at
 most on line `astLast` (the maximum of `end_lineno` over `ast.walk(node)`). -/
 def lineRange (lines : List Line) (first astLast : Nat) : List Nat :=
+  let last0 := max (first + 1) (astLast + 1)
+  let last := extend (lineAt lines first) last0 (lines.drop (last0 - 1))
+  List.range' first (last - first)
+
+/-- **Before d5dca9e**: `last_lineno = max(last_lineno, end_lineno)` — the last line of a multi-line node
+was included only if the indentation heuristic accepted it. -/
+def oldLineRange (lines : List Line) (first astLast : Nat) : List Nat :=
   let last0 := max (first + 1) astLast
   let last := extend (lineAt lines first) last0 (lines.drop (last0 - 1))
   List.range' first (last - first)
